@@ -245,7 +245,7 @@ func ops11(kind int, w *world) []op11 {
 				in.sw = gw
 				return encRes(gw.Buf, err, p)
 			}})
-			for _, k := range []int{1, 3} {
+			for _, k := range []int{0, 1, 3} {
 				k := k
 				ops = append(ops, op11{fmt.Sprintf("WriteTo(writer failing at Write #%d) %s", k, w.vnames[vi]), true, func(in *inst11) string {
 					gw := guard.NewWriter()
